@@ -1,0 +1,9 @@
+//go:build !verif
+
+package p2p
+
+// No-op twins of the C18 verification scheduling points (see verif_c18.go).
+
+func verifBeforeStreamLock(s *Stream, packets []*Packet) {}
+
+func verifBeforeEnqueue(s *Stream, p *Packet) {}
